@@ -7,6 +7,7 @@ from .loader import AnalysisError
 
 
 _NOFUNC = object()
+_UNBOUND = object()
 
 
 class Raised(Exception):
@@ -73,7 +74,7 @@ def call_method(func_node, self_state, args, extra=None):
         else:
             j = i - (len(names) - len(dflt))
             if j < 0:
-                raise AnalysisError("missing argument %s" % n)
+                raise Raised("TypeError")      # a required argument is missing
             env[n] = _ev(dflt[j], env)
     env[prm[0]] = "__SELF__"
     if func_node.args.vararg is not None:
@@ -359,6 +360,8 @@ def _stmt(st, env):
                         _block(h.body, env)
                     finally:
                         env["__exc__"] = saved
+                        if h.name:
+                            env[h.name] = _UNBOUND      # Python deletes the handler's variable when the handler ends
                     break
             else:
                 raise
@@ -450,6 +453,8 @@ def _ev(e, env):
         return fn
     if isinstance(e, ast.Name):
         if e.id in env:
+            if env[e.id] is _UNBOUND:
+                raise Raised("UnboundLocalError")
             return env[e.id]
         if e.id in ("None", "True", "False"):
             return {"None": None, "True": True, "False": False}[e.id]
@@ -513,6 +518,8 @@ def _ev(e, env):
                 return getattr(base, e.attr)
             except AttributeError:
                 raise Raised("AttributeError")
+        if callable(base) and e.attr in ("__name__", "__qualname__", "__doc__", "__module__"):
+            return getattr(base, "mi_name", None) or getattr(base, e.attr, None) or "<callable>"
         if isinstance(base, slice) and e.attr in ("start", "stop", "step"):
             return getattr(base, e.attr)
         if isinstance(base, complex) and e.attr in ("real", "imag"):
@@ -654,7 +661,10 @@ def _ev(e, env):
                                                                   "replace", "rstrip", "lstrip", "encode", "decode"):
             base = _ev(e.func.value, env)
             if isinstance(base, (str, bytes)):
-                return getattr(base, e.func.attr)(*_args(e, env))
+                try:
+                    return getattr(base, e.func.attr)(*_args(e, env))
+                except (TypeError, ValueError, UnicodeError, IndexError, KeyError) as ex:
+                    raise Raised(type(ex).__name__)
         if d in ("operator.itemgetter", "itemgetter") and len(e.args) == 1:
             import operator as _op
             return _op.itemgetter(_ev(e.args[0], env))
@@ -685,7 +695,9 @@ def _ev(e, env):
             if nm in meths:
                 extra = {k: env[k] for k in ("__calls__", "__values__", "__isinstance__", "__methods__", "__globals__",
                                              "__global_lookup__", "__max_iter__") if k in env}
-                return (lambda node: lambda *a: call_method(node, env["__self__"], list(a), extra))(meths[nm])
+                bm_ = (lambda node: lambda *a: call_method(node, env["__self__"], list(a), extra))(meths[nm])
+                bm_.mi_name = nm
+                return bm_
             if nm in env["__self__"]:
                 return env["__self__"][nm]
             if len(e.args) == 3:
